@@ -77,3 +77,175 @@ theorem HasExec.splits {svc : SUnit} {key : String} {cmd : List Str} (h : HasExe
   ⟨_, h, P.collect_quoteWords cmd hw _ (by have := P.quoteWords_length cmd; omega)⟩
 
 end Cv
+
+namespace Cv
+open MM
+
+/-! ### .network -/
+
+theorem C02_network_shape (E : Env) (path : Str) (u svc : SUnit) (n : Str) (h : fromNetwork E path u = .ok (svc, n)) :
+    ∃ sub, HasExec svc "ExecStart"
+      (baseCmd E u (s "Network") ++ [s "network", s "create", s "--ignore"]
+        ++ addBool u (s "Network") Gen.tbl_from_network_unit_bool_keys
+        ++ addString u (s "Network") Gen.tbl_from_network_unit_string_keys
+        ++ addAllStrings u (s "Network") Gen.tbl_from_network_unit_inline_lookup_and_add_all_strings
+        ++ sub ++ addKeys "--opt" (lookupAllKeyVal u (s "Network") (s "Options"))
+        ++ addKeys "--label" (lookupAllKeyVal u (s "Network") (s "Label")) ++ podmanArgs u (s "Network") ++ [n]) := by
+  unfold fromNetwork at h
+  simp only [bind_ok] at h
+  obtain ⟨_, _, _, _, sub, _, svc1, hexec, hfin⟩ := h
+  simp only [pure, Except.pure, Except.ok.injEq, Prod.mk.injEq] at hfin
+  obtain ⟨rfl, rfl⟩ := hfin
+  refine ⟨sub, ?_⟩
+  exact (HasExec.of_addRawExec hexec).oneShot true (by decide) (by decide) (by decide)
+
+
+/-! ### .pod: the create command is ExecStartPre -/
+
+def podNameOf (path : Str) (u : SUnit) : Str :=
+  if ((lookup u (s "Pod") (s "PodName")).getD []).isEmpty then s "systemd-" ++ fileStem (fileName path)
+  else (lookup u (s "Pod") (s "PodName")).getD []
+
+theorem C02_pod_shape (E : Env) (path : Str) (u svc : SUnit) (cts : List Str) (h : fromPod E path u cts = .ok svc) :
+    ∃ maps nets vols, HasExec svc "ExecStartPre"
+      (baseCmd E u (s "Pod") ++ [s "pod", s "create", s "--infra-conmon-pidfile=%t/%N.pid", s "--pod-id-file=%t/%N.pod-id",
+          s "--exit-policy=stop", s "--replace"]
+        ++ maps ++ publishPorts u (s "Pod") ++ nets
+        ++ (addString u (s "Pod") Gen.tbl_from_pod_unit_string_keys ++ addAllStrings u (s "Pod") Gen.tbl_from_pod_unit_all_string_keys)
+        ++ vols ++ [s "--infra-name", podNameOf path u ++ s "-infra", s "--name", podNameOf path u] ++ podmanArgs u (s "Pod")) := by
+  unfold fromPod at h
+  simp only [bind_ok] at h
+  obtain ⟨_, _, _, _, s1, _, s2, _, s3, _, maps, _, x5, _, x6, _, s7, hexec, hfin⟩ := h
+  simp only [pure, Except.pure, Except.ok.injEq] at hfin
+  subst hfin
+  refine ⟨maps, x5.1, x6.1, ?_⟩
+  exact ((((HasExec.of_addRawExec hexec).addS _ _ _).addS _ _ _).addS _ _ _).addS _ _ _
+
+
+/-! ### .kube -/
+
+def kubeAutoUpdate (u : SUnit) : List Str :=
+  (lookupAllStrv u (s "Kube") (s "AutoUpdate")).flatMap fun upd =>
+    match splitOnce '/' upd with
+    | some (a, t) => [s "--annotation", s "io.containers.autoupdate" ++ ('/' :: a) ++ '=' :: t]
+    | none => [s "--annotation", s "io.containers.autoupdate=" ++ upd]
+def kubeConfigMaps (path : Str) (u : SUnit) : List Str :=
+  (lookupAllStrv u (s "Kube") (s "ConfigMap")).flatMap fun c => [s "--configmap", absFromUnit path c]
+
+theorem C02_kube_shape (E : Env) (path : Str) (u svc : SUnit) (h : fromKube E path u = .ok svc) :
+    ∃ maps nets, HasExec svc "ExecStart"
+      (baseCmd E u (s "Kube") ++ [s "kube", s "play", s "--replace", s "--service-container=true"]
+        ++ (match lookup u (s "Kube") (s "ExitCodePropagation") with
+            | some e => if e.isEmpty then [] else [s "--service-exit-code-propagation=" ++ e] | none => [])
+        ++ logDriver u (s "Kube") ++ logOpt u (s "Kube")
+        ++ maps ++ nets ++ kubeAutoUpdate u ++ kubeConfigMaps path u ++ publishPorts u (s "Kube") ++ podmanArgs u (s "Kube")
+        ++ [absFromUnit path ((lookup u (s "Kube") (s "Yaml")).getD [])]) := by
+  unfold fromKube at h
+  simp only [bind_ok] at h
+  obtain ⟨_, _, _, _, h⟩ := h
+  split at h
+  · exact absurd h (throw_bind_ne_ok _ _ _)
+  · simp only [bind_ok] at h
+    obtain ⟨s1, _, s2, _, maps, _, x4, _, s5, hexec, s6, hstop, x7, hwd, hfin⟩ := h
+    simp only [pure, Except.pure, Except.ok.injEq] at hfin
+    subst hfin
+    refine ⟨maps, x4.1, ?_⟩
+    have h1 := (HasExec.of_addRawExec hexec).addRawExec hstop
+    unfold handleSetWorkingDirectory at hwd
+    split at hwd
+    · simp at hwd
+    · simp only [Except.ok.injEq] at hwd
+      rw [← hwd]
+      exact h1.applyWd _
+
+
+/-! ### .build -/
+
+theorem C02_build_shape (E : Env) (path : Str) (u svc : SUnit) (h : fromBuild E path u = .ok svc) :
+    ∃ nets vols fileArgs tail, HasExec svc "ExecStart"
+      (baseCmd E u (s "Build") ++ [s "build"]
+        ++ (match lookup u (s "Build") (s "Pull") with | some p => if p.isEmpty then [] else [s "--pull=" ++ p] | none => [])
+        ++ addString u (s "Build") Gen.tbl_from_build_unit_string_keys
+        ++ addBool u (s "Build") Gen.tbl_from_build_unit_bool_keys
+        ++ addAllStrings u (s "Build") Gen.tbl_from_build_unit_all_string_keys
+        ++ addKeys "--annotation" (lookupAllKeyVal u (s "Build") (s "Annotation"))
+        ++ addKeys "--env" (lookupAllKeyVal u (s "Build") (s "Environment"))
+        ++ addKeys "--label" (lookupAllKeyVal u (s "Build") (s "Label"))
+        ++ nets ++ ((lookupAllArgs u (s "Build") (s "Secret")).flatMap fun x => [s "--secret", x])
+        ++ vols ++ fileArgs ++ podmanArgs u (s "Build") ++ tail) := by
+  unfold fromBuild at h
+  simp only [bind_ok] at h
+  obtain ⟨self, _, h⟩ := h
+  split at h
+  · exact absurd h (throw_bind_ne_ok _ _ _)
+  · simp only [bind_ok] at h
+    obtain ⟨_, _, _, _, x3, _, x4, _, x5, _, x6, _, tail, _, s8, hexec, hfin⟩ := h
+    simp only [pure, Except.pure, Except.ok.injEq] at hfin
+    subst hfin
+    exact ⟨x3.1, x4.1, _, tail, (HasExec.of_addRawExec hexec).oneShot false (by decide) (by decide) (by decide)⟩
+
+
+/-! ### .container -/
+
+theorem typeAndNotify_ok (u : SUnit) (sec : Str) (cmd : List Str) (svc : SUnit) (r : List Str × SUnit)
+    (h : typeAndNotify u sec cmd svc = .ok r) : ∃ t, r.1 = cmd ++ t := by
+  unfold typeAndNotify at h
+  simp only at h
+  split at h
+  · split at h
+    · simp only [Except.ok.injEq] at h; subst h; exact ⟨[], by simp⟩
+    · split at h
+      · simp only [Except.ok.injEq] at h; subst h; exact ⟨_, rfl⟩
+      · simp at h
+  · simp only [Except.ok.injEq] at h; subst h; exact ⟨_, rfl⟩
+
+theorem C02_container_shape (E : Env) (path : Str) (u svc : SUnit) (link : Option (Str × Str))
+    (h : fromContainer E path u = some (.ok (svc, link))) :
+    ∃ mid1 mounts podArgs image, HasExec svc "ExecStart"
+      (containerHead E path u (s "Container") ++ mid1 ++ containerMid path u (s "Container") ++ mounts
+        ++ healthArgs u (s "Container") ++ podArgs ++ podmanArgs u (s "Container") ++ containerTail u (s "Container") image) := by
+  unfold fromContainer at h
+  simp only at h
+  split at h
+  · simp at h
+  · simp only [Option.some.injEq, bind_ok] at h
+    obtain ⟨self, _, _, _, _, _, h⟩ := h
+    split at h
+    · exact absurd h (throw_bind_ne_ok _ _ _)
+    · split at h
+      · exact absurd h (throw_bind_ne_ok _ _ _)
+      · simp only [bind_ok] at h
+        obtain ⟨x1, h1, s2, h2, s3, h3, s4, h4, x5, h5, x6, h6, usr, _, maps, _, x7, h7, ports, _, x8, h8, x9, h9, s10, h10, hfin⟩ := h
+        simp only [pure, Except.pure, Except.ok.injEq, Prod.mk.injEq] at hfin
+        obtain ⟨rfl, _⟩ := hfin
+        obtain ⟨t, ht⟩ := typeAndNotify_ok _ _ _ _ _ h6
+        have hx := HasExec.of_addRawExec h10
+        rw [ht] at hx
+        refine ⟨x5.1 ++ t ++ containerSecurity E u (s "Container") ++ usr ++ maps ++ x7.1 ++ containerAutoUpdate u (s "Container") ++ ports,
+          x8.1, x9.1, x1.1, ?_⟩
+        simpa only [List.append_assoc] using hx
+
+
+/-! ### .volume -/
+
+theorem C02_volume_shape (E : Env) (path : Str) (u svc : SUnit) (n : Str) (h : fromVolume E path u = .ok (svc, n)) :
+    ∃ cmd2, HasExec svc "ExecStart"
+      (cmd2 ++ addKeys "--label" (lookupAllKeyVal u (s "Volume") (s "Label")) ++ podmanArgs u (s "Volume") ++ [n]) := by
+  unfold fromVolume at h
+  simp only [bind_ok] at h
+  obtain ⟨_, _, _, _, x, _, svc1, hexec, hfin⟩ := h
+  simp only [pure, Except.pure, Except.ok.injEq, Prod.mk.injEq] at hfin
+  obtain ⟨rfl, rfl⟩ := hfin
+  exact ⟨x.1, (HasExec.of_addRawExec hexec).oneShot true (by decide) (by decide) (by decide)⟩
+
+/-! ### what systemd runs: the documented option of a table key is in the argument vector -/
+
+/-- a single-valued table key with a non-empty value: `flag value` is a contiguous part of the row block -/
+theorem rowString_infix (u : SUnit) (sec : Str) (rows : List (Str × Str)) (k f v : Str) (hr : (k, f) ∈ rows)
+    (hv : lookup u sec k = some v) (hne : v.isEmpty = false) : [f, v] <:+: addString u sec rows := by
+  unfold addString
+  obtain ⟨l₁, l₂, rfl⟩ := List.append_of_mem hr
+  simp only [List.flatMap_append, List.flatMap_cons, hv, hne, Bool.false_eq_true, if_false]
+  exact List.infix_append' _ _ _
+
+end Cv
